@@ -81,6 +81,7 @@ func goxScenarios() []goxScenario {
 		{Name: "filter", Files: files, SQL: "SELECT a FROM t WHERE b > 1", CPU: 3},
 		{Name: "select-list", Files: files, SQL: "SELECT a, b * 2 + 1, g || '!' FROM t", CPU: 3},
 		{Name: "group-by", Files: files, SQL: "SELECT g, COUNT(*), SUM(b) FROM t GROUP BY g", CPU: 3},
+		{Name: "group-by-2-keys", Files: files, SQL: "SELECT g, b, COUNT(*) FROM t GROUP BY g, b", CPU: 3},
 		{Name: "group-by-2workers", Files: files, SQL: "SELECT g, COUNT(*) FROM t GROUP BY g", CPU: 2},
 		{Name: "distinct", Files: files, SQL: "SELECT DISTINCT g FROM t", CPU: 3},
 		{Name: "order-by", Files: files, SQL: "SELECT a, g FROM t ORDER BY g, a DESC", CPU: 3},
@@ -196,6 +197,8 @@ func sameMultiset(a, b string) bool {
 }
 
 func c12Run(c *core.Ctx) {
+	gox.EvalPoints = true
+	defer func() { gox.EvalPoints = false }()
 	prev := query.GetGoroutineManager().MinimumRequiredPerCore
 	query.GetGoroutineManager().MinimumRequiredPerCore = 2
 	defer func() { query.GetGoroutineManager().MinimumRequiredPerCore = prev }()
@@ -289,6 +292,8 @@ func c12Replay(c *core.Ctx, payload json.RawMessage) {
 		fmt.Println(err)
 		return
 	}
+	gox.EvalPoints = true
+	defer func() { gox.EvalPoints = false }()
 	prev := query.GetGoroutineManager().MinimumRequiredPerCore
 	query.GetGoroutineManager().MinimumRequiredPerCore = 2
 	defer func() { query.GetGoroutineManager().MinimumRequiredPerCore = prev }()
